@@ -47,6 +47,14 @@ KNOWN = VERIF / "known_findings.json"
 PY = "/venv/bin/python"
 GUARD = "EXO_VERIF"
 
+def safe_str(x) -> str:
+    """str(procedure) can itself fail (the printer hands an empty body to yapf: known finding of C17)"""
+    try:
+        return str(x)
+    except Exception as e:  # pragma: no cover
+        return "<unprintable: %s: %s>" % (type(e).__name__, str(e)[:120])
+
+
 FORBIDDEN = re.compile(
     r"\b(Admitted|admit|Axiom|Axioms|Parameter|Parameters|Conjecture|Conjectures|Admit Obligations|"
     r"Unset Guard Checking|Unset Positivity Checking|Unset Universe Checking|bypass_check|"
